@@ -37,6 +37,8 @@ MANIFEST = {
     'technique': 'machine-checked proof in Coq + model/implementation structural correspondence (vm_compute) + differential execution',
 }
 
+NOCOQ = False      # debugging aid (set by a driver): skip the Coq evaluation of the structural cases
+
 HEADER = (COQ_HEADER + 'From FpyV Require Import Lang.Transforms.Rename Lang.Transforms.Inline Lang.Transforms.Mono '
           'Lang.Transforms.LiftCtx Lang.Transforms.AlphaEq Cases.C09Cases.\nOpen Scope list_scope.\n')
 
@@ -76,6 +78,7 @@ class Gen:
         self.n = 0
         self.taken = {'t', 'r', 'x', 'y', 'xs', 'ys', 'a', 'b', 'v', 'zs'}
         self.pin = None       # category same-pin: the context caller and callees declare
+        self.cx = cat in ('runtime-with', 'module')   # main takes a Context parameter `cx` and opens `with cx:`
         self.feats = set()
 
     def fresh(self, b):
@@ -153,6 +156,13 @@ class Gen:
         if c < 0.9:
             return Node('op3', 'fma', self.rexpr(rv, lv, d - 1), self.rexpr(rv, lv, d - 1), self.rexpr(rv, lv, d - 1))
         return Node(r.choice(['min', 'max']), [self.rexpr(rv, lv, d - 1), self.rexpr(rv, lv, d - 1)])
+
+    def site_ctx(self):
+        """the header of a `with` of the caller around call sites: also the run-time context parameter"""
+        if self.cx and self.r.random() < 0.45:
+            self.feats.add('site-in-with-runtime-ctx')
+            return V('cx')
+        return self.ctx_expr()
 
     def bexpr(self, rv, lv):
         return Node('cmp', [self.r.choice(['<', '<=', '>', '>='])], [self.rexpr(rv, lv, 1), self.rexpr(rv, lv, 1)])
@@ -273,9 +283,9 @@ class Gen:
                 name = None
                 body = self.site_stmts(rv, lv, d - 1, hs)
                 if r.random() < 0.4:
-                    body = [Node('with', None, self.ctx_expr(), body)]
+                    body = [Node('with', None, self.site_ctx(), body)]
                     self.feats.add('site-in-nested-with')
-                out.append(Node('with', name, self.ctx_expr(), body))
+                out.append(Node('with', name, self.site_ctx(), body))
                 self.feats.add('site-in-with')
             elif c < 0.72:
                 i = self.fresh('i')
@@ -308,7 +318,9 @@ class Gen:
         ctx = self.small_ctx() if self.r.random() < 0.2 else None
         if self.pin is not None:
             ctx = self.pin
-        return Func('main', ['x', 'y', 'xs', 'ys'], ctx, body + [ret])
+        if self.cat == 'module':
+            ctx = None          # the entry context comes from Module.add
+        return Func('main', ['x', 'y', 'xs', 'ys'] + (['cx'] if self.cx else []), ctx, body + [ret])
 
     def program(self):
         r, cat = self.r, self.cat
@@ -328,6 +340,22 @@ class Gen:
                                 Node('with', None, self.ctx_expr(), [asg('t', self.call_of(p1, 'pure', ['t', 'r', 'i'], lv))])])]),
                     asg('r', op2('add', V('r'), self.call_of(p1, 'pure', ['t', 'r'], lv)))]
             body += self.site_stmts(['x', 'y', 't', 'r'], lv, 2, hs)
+            return self.finish(body, ['x', 'y', 't', 'r'])
+        if cat in ('runtime-with', 'module'):
+            kinds = ['pure', 'mut', 'wth']
+            r.shuffle(kinds)
+            hs = [self.helper(k) for k in kinds[:r.randint(2, 3)]]
+            if r.random() < 0.5:
+                hs.append(self.helper('chain', hs))
+            f0, k0 = hs[0]
+            body = [asg('t', self.rexpr(rv, lv)), asg('r', lit(r.choice(LITS))),
+                    asg('t', self.call_of(f0, k0, ['x', 'y', 't'], lv)),
+                    Node('with', None, V('cx'), [asg('r', self.call_of(f0, k0, ['x', 'y', 't', 'r'], lv)),
+                                                 Node('for', PV('i'), Node('range', [lit(2)]),
+                                                      [asg('t', self.call_of(hs[1][0], hs[1][1], ['t', 'r', 'i'], lv))])])]
+            self.feats.add('site-in-with-runtime-ctx')
+            rv += ['t', 'r']
+            body += self.site_stmts(rv, lv, 2, hs)
             return self.finish(body, ['x', 'y', 't', 'r'])
         if cat in ('safe', 'safe-deep', 'gensym-digits', 'gen-names'):
             kinds = ['pure', 'mut', 'wth', 'loop']
@@ -451,7 +479,11 @@ class Gen:
         return N.of(r.choice(self.SPEC) if r.random() < ps else r.choice(self.FIN))
 
     def args(self, ps):
-        return [self.number(ps), self.number(ps), [self.number(ps * 0.5) for _ in range(3)], [self.number(ps * 0.5) for _ in range(3)]]
+        a = [self.number(ps), self.number(ps), [self.number(ps * 0.5) for _ in range(3)], [self.number(ps * 0.5) for _ in range(3)]]
+        if self.cx:
+            a.append(self.r.choice([CtxSpec('IEEE', es=5, nbits=16, rm='RNE'), CtxSpec('IEEE', es=8, nbits=32, rm='RNE'),
+                                    self.small_ctx(), self.small_ctx()]))
+        return a
 
 
 # ---------------------------------------------------------------- lift_context / close programs
@@ -544,6 +576,85 @@ def close_program(r):
     return '\n'.join(lines), f, [(n, vals[n]) for n in sorted(used)]
 
 
+def fv_program(r, cat):
+    """Callee CLOSURES made by factories: each captures data variables (`K`, `J`) by value; several closures
+    capture a variable of the same name with equal or different values.  -> (source, sites, helpers) where
+    helpers: {name: (own captured {var: value}, [called helper names])}, sites: callee names of main's call
+    sites in visit order.  Statement-position sites only (the proved fragment)."""
+    vals = [0.1, 0.3, 2.5, 3, -1.25, 0.75]
+    ka, kb = r.sample(vals, 2)
+    ja = r.choice(vals)
+    jb = ja if r.random() < 0.5 else r.choice([v for v in vals if v != ja])
+    dctx = lambda: ('' if r.random() < 0.6 else f'(ctx=fp.MPFloatContext({r.randint(3, 8)}))')   # noqa: E731
+    L = ['import fpy2 as fp', '', 'KLOW = fp.MPFloatContext(4)', '',
+         'def mk_sc(K):', f'    @fp.fpy{dctx()}', '    def sc(a):',
+         r.choice(['        return K * a', '        u = a + K\n        return u * K', '        with KLOW:\n            u = K * a\n        return u + a']),
+         '    return sc', '',
+         'def mk_mu(K, J):', f'    @fp.fpy{dctx()}', '    def mu(zs, v):', '        zs[0] = zs[0] * K + v', '        return zs[0] + J', '    return mu', '',
+         'def mk_mid(K, inner):', '    @fp.fpy', '    def mid(a):', '        v = inner(a)', '        return v * K + 1', '    return mid', '',
+         f'sc_a = mk_sc({ka!r})', f'sc_b = mk_sc({kb!r})', f'sc_c = mk_sc({ka!r})',
+         f'mu_a = mk_mu({ka!r}, {ja!r})', f'mu_b = mk_mu({kb!r}, {jb!r})', f'mu_c = mk_mu({ka!r}, {ja!r})',
+         f'mid_a = mk_mid({ka!r}, sc_a)', f'mid_x = mk_mid({kb!r}, sc_a)', '',
+         '@fp.fpy', 'def plain(a):', '    v = sc_a(a)', '    return v + 1', '']
+    helpers = {'sc_a': ({'K': ka}, []), 'sc_b': ({'K': kb}, []), 'sc_c': ({'K': ka}, []),
+               'mu_a': ({'K': ka, 'J': ja}, []), 'mu_b': ({'K': kb, 'J': jb}, []), 'mu_c': ({'K': ka, 'J': ja}, []),
+               'mid_a': ({'K': ka}, ['sc_a']), 'mid_x': ({'K': kb}, ['sc_a']), 'plain': ({}, ['sc_a'])}
+    if cat == 'fv-same':
+        pool = ['sc_a', 'sc_c', 'mu_a', 'mu_c', 'mid_a', 'plain']
+    elif cat == 'fv-conflict':
+        pool = ['sc_a', 'sc_b', 'mu_a', 'mu_b', 'sc_c', 'mid_a', 'mid_x', 'plain']
+    else:   # fv-captured: the caller has its own variable named like a captured one
+        pool = ['sc_a', 'mu_a']
+    n = r.randint(2, 4)
+    sites = [r.choice(pool) for _ in range(n)]
+    if cat == 'fv-conflict' and len({helpers[s][0]['K'] for s in sites if 'K' in helpers[s][0]}) < 2:
+        sites[0], sites[-1] = 'sc_a', r.choice(['sc_b', 'mu_b'])
+
+    def callsrc(h, i):
+        arg = r.choice(['x', 'y', 't', '(x + t)'])
+        return f'{h}(xs, {arg})' if h.startswith('mu') else f'{h}({arg})'
+    params = 'x, y, xs' + (', K' if cat == 'fv-captured' and r.random() < 0.5 else '')
+    body = ['    t = x * y']
+    if cat == 'fv-captured' and ', K' not in params:
+        body.append(f'    K = {r.choice([5.0, 7, 0.5])!r}')
+    for i, h in enumerate(sites):
+        c = r.random()
+        call = callsrc(h, i)
+        if c < 0.5:
+            body.append(f'    t = {call}')
+        elif c < 0.7:
+            body += ['    with KLOW:', f'        t = {call}']
+        elif c < 0.9:
+            body += ['    for i in range(2):', f'        t = {call}']
+        else:
+            body += [f'    for z in xs:', '        with fp.MPFloatContext(5):', f'            t = {call}']
+    body.append('    return (t, xs' + (', K' if cat == 'fv-captured' else '') + ')')
+    L += ['@fp.fpy', f'def main({params}):'] + body + ['']
+    return '\n'.join(L), sites, helpers, ('K' in params.split(', '))
+
+
+def fv_caps(helpers, h, recursive):
+    """[(var, value)] of the data variables a spliced body of h brings along"""
+    own, calls = helpers[h]
+    out = list(own.items())
+    if recursive:
+        for c in calls:
+            out += fv_caps(helpers, c, True)
+    return out
+
+
+def fv_must_refuse(helpers, sites, wh, recursive):
+    """a name captured with two different values among the bodies spliced in ONE pass: the pass has to raise"""
+    sel = sites if wh is None else sites[wh:wh + 1]
+    seen = {}
+    for s in sel:
+        for k, v in fv_caps(helpers, s, recursive):
+            if k in seen and seen[k] != v:
+                return True
+            seen[k] = v
+    return False
+
+
 def lit_of_py(v):
     """const_fold.value_to_literal as a lang Node"""
     if isinstance(v, bool):
@@ -616,6 +727,42 @@ def apply_real(thunk):
         if tn in REFUSALS:
             return ('refused', tn)
         return ('crash', f'{tn}: {str(e)[:200]}')
+
+
+def coq_eval_two(ck, header, case_type, cases, fn_a, fn_b, shards=16, timeout=1200, tag='cases'):
+    """Like Check.coq_eval_mismatches for two predicates at once (the cost of a shard is loading the libraries and
+    elaborating the case terms, not evaluating them): -> (indices where fn_a is false, indices where fn_b is false, error)."""
+    import re
+    from ..common import COQ, sh
+    chunk = max(1, (len(cases) + shards - 1) // shards)
+    names = []
+    for si in range(0, len(cases), chunk):
+        part = cases[si:si + chunk]
+        name = f'{tag}_{si // chunk:04d}'
+        body = ';\n'.join(f'({si + j}%nat, {c})' for j, c in enumerate(part))
+        text = (header + '\n'
+                f'Definition cases : list (nat * ({case_type})) := [\n{body}\n].\n'
+                f'Definition bad_a := map fst (filter (fun ic => negb ({fn_a} (snd ic))) cases).\n'
+                f'Definition bad_b := map fst (filter (fun ic => negb ({fn_b} (snd ic))) cases).\n'
+                'Eval vm_compute in bad_a.\nEval vm_compute in bad_b.\n')
+        (ck.dir / f'{name}.v').write_text(text)
+        names.append(name)
+    if not names:
+        return [], [], None
+    cmd = (f"xargs -P16 -I{{}} sh -c 'timeout {timeout} coqc -Q {COQ} FpyV -Q . Dyn {{}}.v > {{}}.out 2>&1 || echo FAIL >> {{}}.out'")
+    sh(cmd, cwd=ck.dir, input='\n'.join(names), timeout=timeout * (len(names) // 16 + 1) + 60)
+    a, b, err = [], [], None
+    for name in names:
+        out = (ck.dir / f'{name}.out').read_text()
+        ms = re.findall(r'=\s*\[(.*?)\]\s*:\s*list nat', out, re.S)
+        if 'FAIL' in out or len(ms) != 2:
+            err = (err or '') + f'{name}: {out[-500:]}\n'
+            continue
+        for dst, body in ((a, ms[0]), (b, ms[1])):
+            body = body.strip()
+            if body:
+                dst += [int(x.replace('%nat', '').strip()) for x in body.split(';')]
+    return sorted(a), sorted(b), err
 
 
 class RefusalSpy:
@@ -735,7 +882,7 @@ def run(ck):
                     return
 
     # ------------------------------------------------------------ inline
-    cats = (['safe'] * 8 + ['same-pin'] * 2 + ['gen-names'] * 2 + ['safe-deep'] * 2 + ['expr-pure'] * 2 + ['arg-order', 'hoist-order', 'conditional', 'with-target',
+    cats = (['safe'] * 7 + ['runtime-with'] * 2 + ['same-pin'] * 2 + ['gen-names'] * 2 + ['safe-deep'] + ['expr-pure'] * 2 + ['arg-order', 'hoist-order', 'conditional', 'with-target',
             'with-target-used', 'comp-var', 'while-cond', 'hdr-computed', 'onelevel-freevar', 'gensym-digits'])
     nprog = 260 if thorough else 58
     import os
@@ -827,6 +974,105 @@ def run(ck):
                          None, {'strategy': f'inline(.., 0, recursive=False) x {steps}', 'category': cat, 'program': src,
                                 'transformed': cur.format()})
     ck.log(f'inline: {len(cases)} structural cases, {stats["beh_runs"]} runs in {time.time() - t0:.1f}s')
+
+    # ------------------------------------------------------------ Module.specialized (not modelled: behaviour only)
+    # every call site is rewired to a specialisation of the callee at the site's STATIC calling context, and stays
+    # polymorphic where that context is only known at run time (`with cx:`); observed through the rewired Call.fn by
+    # flattening the specialised module (statement-position sites only: inlining is sound there, C09_inline_sound)
+    t0 = time.time()
+    from fpy2 import Module
+    nmod = 70 if thorough else 14
+    if dbg:
+        nmod = max(3, dbg // 5)
+    for idx in range(nmod):
+        rng = Rng(ck.seed, f'c09-mod-{idx}')
+        g = Gen(rng, 'module')
+        try:
+            prog = g.program()
+            modname = f'c09_mod_{idx:04d}'
+            src = prog.source(modname)
+            mod = lang.load_module(progdir, modname, src)
+            main = mod.main
+        except Exception as e:  # noqa: BLE001
+            ck.count('generator-rejected')
+            ck.log(f'module program {idx} rejected: {type(e).__name__}: {str(e)[:200]}')
+            continue
+        argsl = [g.args(0.0 if j < 2 else 0.3) for j in range(nargs)]
+        for ei, entry in enumerate([CtxSpec('IEEE', es=8, nbits=32, rm='RNE'), g.small_ctx(), None][:(3 if thorough else 2)]):
+            eobj = None if entry is None else entry.obj()
+            meta = {'strategy': f'Module().add(main, name="entry", ctx={None if entry is None else entry.py()}).specialized()'
+                                ' [.map(FuncInline.apply)]', 'program': src}
+
+            def build(eobj=eobj):
+                m = Module()
+                m.add(main, name='entry', ctx=eobj)
+                spec = m.specialized()
+                flat = spec.map(lambda mm, fd: FuncInline.apply(fd))
+                return spec.get('entry').func, flat.get('entry').func
+            res = apply_real(build)
+            ck.count('module-op:' + res[0])
+            if res[0] != 'ok':
+                ck.violation('Module.specialized() / map(FuncInline) did not return on a well-formed module',
+                             dict(meta, error=res[1]))
+                continue
+            ent, flat = res[1]
+            ck.nontriv(('module', idx, ei))
+            for fn2, what in ((flat, 'the specialised module, flattened through its rewired calls, does not return what the '
+                                     'original entry returns under the entry context'),
+                              (ent, 'the specialised entry does not return what the original entry returns under the entry context')):
+                for args in argsl:
+                    def o(args=args):
+                        pa = [py_of_arg(a) for a in copy.deepcopy(args)]
+                        return main(*pa) if eobj is None else main(*pa, ctx=eobj)
+
+                    def n(args=args, fn2=fn2):
+                        return fn2(*[py_of_arg(a) for a in copy.deepcopy(args)])
+                    if not behav(what, None, dict(meta, args=[repr(a) for a in args], transformed=fn2.format()), o, n):
+                        break
+    ck.log(f'module specialisation done in {time.time() - t0:.1f}s')
+
+    # ------------------------------------------------------------ inlining callee closures with captured data
+    # (FPyLang has no captured data variables: behaviour, and "a conflict must be refused", only)
+    t0 = time.time()
+    fcats = ['fv-same', 'fv-conflict', 'fv-conflict', 'fv-captured']
+    nfv = 80 if thorough else 20
+    if dbg:
+        nfv = max(4, dbg // 4)
+    for idx in range(nfv):
+        cat = fcats[idx % len(fcats)]
+        rng = Rng(ck.seed, f'c09-fv-{idx}')
+        try:
+            src, sites, helpers, kparam = fv_program(rng, cat)
+            modname = f'c09_fv_{idx:04d}'
+            mod = lang.load_module(progdir, modname, src)
+            main = mod.main
+        except Exception as e:  # noqa: BLE001
+            ck.count('generator-rejected')
+            ck.log(f'closure program {idx} rejected: {type(e).__name__}: {str(e)[:200]}')
+            continue
+        ck.count('closure-program:' + cat)
+        g = Gen(rng, 'fv')
+        argsl = [[g.number(0.0 if j < 2 else 0.25), g.number(0.0 if j < 2 else 0.25), [g.number(0.1) for _ in range(2)]]
+                 + ([g.number(0)] if kparam else []) for j in range(nargs)]
+        ops = [(True, None), (False, None)] + [(rng.random() < 0.5, k) for k in range(len(sites))][:3]
+        for rec, wh in ops:
+            res = apply_real(lambda rec=rec, wh=wh: inline(main, wh, recursive=rec))
+            meta = {'strategy': f'inline(main, where={wh}, recursive={rec})', 'category': cat, 'program': src}
+            ck.count('closure-op:' + ('refused:' + res[1] if res[0] == 'refused' else res[0]))
+            ck.nontriv(('closure', idx, rec, wh))
+            if res[0] == 'crash':
+                ck.violation('the inline strategy crashed (not a documented refusal)', dict(meta, error=res[1]))
+                continue
+            if res[0] == 'ok' and cat != 'fv-captured' and fv_must_refuse(helpers, sites, wh, rec):
+                ck.violation('two callee bodies that capture a variable of the same name with DIFFERENT values were spliced '
+                             'into one function (the pass documents a RuntimeError for conflicting free variables)',
+                             dict(meta, transformed=res[1].format()))
+            if res[0] == 'ok':
+                run_pair(main, res[1], argsl, [g.small_ctx() for _ in range(3)],
+                         'inlining changed the result of a function on an input on which the original returns',
+                         'inline-free-var-captured-by-caller-variable' if cat == 'fv-captured' else None,
+                         dict(meta, transformed=res[1].format()))
+    ck.log(f'closure inlining done in {time.time() - t0:.1f}s')
 
     # ------------------------------------------------------------ mono
     t0 = time.time()
@@ -985,9 +1231,12 @@ def run(ck):
                'the original on 6+ argument tuples incl. specials, with and without caller context; non-trivial = distinct '
                '(program, strategy invocation)')
     t0 = time.time()
-    chunk = max(2, len(cases) // 32 + 1)
-    # first against the model of the code as it is; what differs, against the models with proposed repairs in force
-    nc, err = ck.coq_eval_mismatches(HEADER, 'case9', cases, 'ascoded9', chunk=chunk, timeout=1200)
+    # first against the model of the code as it is (and, in the same pass, is the case in the proved fragment?); what
+    # differs, against the models with proposed repairs in force
+    if NOCOQ:
+        nc, nf, err = [], [], None
+    else:
+        nc, nf, err = coq_eval_two(ck, HEADER, 'case9', cases, 'ascoded9', 'frag9')
     if err:
         ck.broken.append('structural correspondence evaluation failed: ' + err[:600])
     bad = []
@@ -1005,7 +1254,6 @@ def run(ck):
         key = {'onelevel-freevar': 'inline-one-level-free-var-clash'}.get(meta.get('category'))
         ck.violation('the output of the real strategy is not the output of the Gallina model (up to renaming), or a refusal does '
                      'not coincide with the model\'s None', dict(meta, model_says=out[-2500:]), key=key)
-    nf, err2 = ck.coq_eval_mismatches(HEADER, 'case9', cases, 'frag9', chunk=chunk, timeout=1200, tag='frag')
     repaired = sorted(set(nc) - set(bad))
     ck.extra['cases_equal_to_the_model_of_the_code_as_it_is'] = len(cases) - len(nc)
     ck.extra['cases_equal_only_to_a_model_with_a_proposed_repair'] = len(repaired)
